@@ -4,6 +4,7 @@ import (
 	"go/ast"
 	"go/token"
 	"go/types"
+	"strings"
 
 	"golang.org/x/tools/go/cfg"
 )
@@ -44,6 +45,8 @@ func runC03(c *Ctx) {
 	ruleNoLoopVarCapture(c, "C03.22", "storage", "engine")
 	ruleRawReadOnBuffer(c, "C03.23", "storage.(*WALEntry).decode")
 	ruleLSNMonotone(c, "C03.24")
+	ruleOneRecordPerRow(c, "C03.25")
+	ruleRowRecordsAtomic(c, "C03.26")
 	ruleErrorsNotDropped(c, "C03.11", "storage.(*BTree).insert", "storage.(*RelationService).Insert")
 }
 
@@ -81,6 +84,12 @@ func c03Framing(c *Ctx, rule string) {
 			if call, ok := ast.Unparen(e).(*ast.CallExpr); ok {
 				if id, ok := call.Fun.(*ast.Ident); ok && id.Name == "len" && len(call.Args) == 1 && exprKey(call.Args[0]) == bodyArg {
 					lenOK = true
+				}
+				// B.Len() is len(B.Bytes()) for a bytes.Buffer
+				if sel, ok := call.Fun.(*ast.SelectorExpr); ok && sel.Sel.Name == "Len" && len(call.Args) == 0 && exprKey(sel.X)+".Bytes()" == bodyArg {
+					if t := wf.TypeOf(sel.X); t != nil && strings.HasSuffix(types.TypeString(t, nil), "bytes.Buffer") {
+						lenOK = true
+					}
 				}
 			}
 		}
